@@ -229,12 +229,6 @@ theorem broadcast_one_per_present_peer (s : State) (hI : Inv s) (path : String) 
 
 /-! ### concurrent callers -/
 
-/-- `Merge ts m`: `m` is an interleaving of the thread programs `ts` (each thread's calls in order). -/
-inductive Merge : List (List Op) → List Op → Prop where
-  | done (ts : List (List Op)) : (∀ t ∈ ts, t = []) → Merge ts []
-  | pick (ts : List (List Op)) (i : Nat) (op : Op) (rest m : List Op) :
-      ts[i]? = some (op :: rest) → Merge (ts.set i rest) m → Merge ts (op :: m)
-
 /-- Every method of `PeerRegistry` that touches the maps takes the registry lock exactly once (fact
 re-extracted from the source on every run) and `broadcast_each` takes its snapshot through one such
 method and sends outside the lock. Hence a concurrent execution is an interleaving of whole calls,
